@@ -107,7 +107,7 @@ impl<C: OneApi + 'static> Exec for OneExec<C> {
             [1] => {
                 o.r = vec![match self.ch.close() {
                     None => R_PANIC,
-                    Some(c) => rbool(c.is_newly_closed()),
+                    Some(c) => close_code(c),
                 }]
             }
             [2, f] if (*f as usize) < self.futs.len() && !self.futs.alive(*f as usize) => match self.ch.receive() {
